@@ -179,38 +179,19 @@ Definition check_one (ps : list param) (c : cache) : cache :=
   end.
 
 (* RemovePolicies (plain) / checkManyAndRemoveCache (synced):
-     irule := make([]interface{}, len(rules[0]))
-     for _, rule := range rules { for i, param := range rule { irule[i] = param }
+     for _, rule := range rules { irule := make([]interface{}, len(rule))
+                                  for i, param := range rule { irule[i] = param }
                                   key, _ := getKey(irule...); cache.Delete(key) }
-   irule is ONE buffer: a rule shorter than rules[0] leaves the tail of the previous rule in
-   place, a rule longer than rules[0] is an index-out-of-range panic.  The first rule fills the
-   buffer completely, so starting from buf = rules[0] is the same as starting from nils. *)
-Definition overlay (buf rule : list string) : list string :=
-  rule ++ skipn (List.length rule) buf.
-
-Fixpoint batch_keys (buf : list string) (rules : list (list string)) : list string * bool :=
-  match rules with
-  | [] => ([], false)
-  | rule :: rest =>
-      if Nat.ltb (List.length buf) (List.length rule) then ([], true)
-      else
-        let buf' := overlay buf rule in
-        let (ks, p) := batch_keys buf' rest in
-        (key_of_texts buf' :: ks, p)
-  end.
-
-(* keys deleted by a batch, and whether the loop panicked *)
-Definition keys_of_batch (rules : list (list string)) : list string * bool :=
-  match rules with
-  | [] => ([], false)
-  | r0 :: _ => batch_keys r0 rules
-  end.
+   one key buffer per rule, all of its entries strings, so the key of a rule is always built
+   from that rule alone. *)
+Definition keys_of_batch (rules : list (list string)) : list string :=
+  map key_of_texts rules.
 
 Definition delete_all (ks : list string) (c : cache) : cache :=
   fold_left (fun c k => delete k c) ks c.
 
-Definition check_many (rules : list (list string)) (c : cache) : cache * bool :=
-  let (ks, p) := keys_of_batch rules in (delete_all ks c, p).
+Definition check_many (rules : list (list string)) (c : cache) : cache :=
+  delete_all (keys_of_batch rules) c.
 
 Definition mem_str (k : string) (l : list string) : bool := existsb (String.eqb k) l.
 Definition key_is (o : option string) (k : string) : bool :=
@@ -277,9 +258,7 @@ Section Wrapper.
     | LoadPolicy => with_u s ULoad []
     | ClearPolicy => with_u s UClear []
     | RemovePolicy ps => with_u s (URemove ps) (check_one ps (cache_of s))
-    | RemovePolicies rules =>
-        let (c, p) := check_many rules (cache_of s) in
-        if p then (set_cache s c, OPanic) else with_u s (URemoveMany rules) c
+    | RemovePolicies rules => with_u s (URemoveMany rules) (check_many rules (cache_of s))
     | AddPolicy ps =>
         match v with
         | Synced => with_u s (UAdd ps) (check_one ps (cache_of s))
@@ -287,9 +266,7 @@ Section Wrapper.
         end
     | AddPolicies rules =>
         match v with
-        | Synced =>
-            let (c, p) := check_many rules (cache_of s) in
-            if p then (set_cache s c, OPanic) else with_u s (UAddMany rules) c
+        | Synced => with_u s (UAddMany rules) (check_many rules (cache_of s))
         | Plain => with_u s (UAddMany rules) (cache_of s)    (* not overridden *)
         end
     | EnableCache b => (mk_state (ust s) (cache_of s) b (expire s), ORet true false)
@@ -307,11 +284,11 @@ Section Wrapper.
     match o with
     | InvalidateCache | LoadPolicy | ClearPolicy => true
     | RemovePolicy ps => key_is (get_key (rule_params ps)) k
-    | RemovePolicies rules => mem_str k (fst (keys_of_batch rules))
+    | RemovePolicies rules => mem_str k (keys_of_batch rules)
     | AddPolicy ps =>
         match v with Synced => key_is (get_key (rule_params ps)) k | Plain => false end
     | AddPolicies rules =>
-        match v with Synced => mem_str k (fst (keys_of_batch rules)) | Plain => false end
+        match v with Synced => mem_str k (keys_of_batch rules) | Plain => false end
     | Enforce _ _ | EnableCache _ | SetExpireTime _ | Passthrough _ => false
     end.
 
@@ -540,19 +517,12 @@ Definition acl_run_step (v : variant) (s : state acl_state) (o : acl_op) : state
 Definition acl_req_ok (r : list param) : bool :=
   match r with PCtx _ _ _ _ :: _ => false | _ => negb (all_empty r) end.
 
-Definition uniform (rules : list (list string)) : bool :=
-  match rules with
-  | [] => true
-  | r0 :: _ => forallb (fun r => Nat.eqb (List.length r) (List.length r0)) rules
-  end.
-
-(* operation: one of the listed invalidating mutators (or no mutator at all); batches have one
-   length; rules added on the synced variant have the arity of the policy definition *)
+(* operation: one of the listed invalidating mutators (or no mutator at all); rules added on the synced variant have the arity of the policy definition *)
 Definition acl_op_ok (v : variant) (o : acl_op) : bool :=
   match o with
   | Enforce _ _ | InvalidateCache | LoadPolicy | ClearPolicy | EnableCache _ | SetExpireTime _ => true
   | RemovePolicy _ => true
-  | RemovePolicies rules => uniform rules
+  | RemovePolicies _ => true
   | AddPolicy ps =>
       match v with
       | Synced => match rule_of_params ps with
